@@ -327,12 +327,18 @@ func genTopo(custom bool, maxLogN int) *rapid.Generator[Topo] {
 		if nGates < nIn && rapid.Bool().Draw(rt, "more-gates") {
 			nGates = nIn
 		}
-		// a single instance is accepted by Import but never compiles on this tree (see run): keep it rare
-		if rapid.IntRange(0, 19).Draw(rt, "single-instance") == 0 {
-			t.LogN = 0
-		} else {
-			t.LogN = rapid.IntRange(1, maxLogN).Draw(rt, "log_n")
+		// a single instance is accepted by Import but never compiles on this tree (see run): keep it
+		// rare (rapid favours the first entries of a list, so the 0 sits in the middle)
+		logNs := []int{}
+		for r := 0; r < 3; r++ {
+			for k := 1; k <= maxLogN; k++ {
+				logNs = append(logNs, k)
+			}
+			if r == 1 {
+				logNs = append(logNs, 0)
+			}
 		}
+		t.LogN = rapid.SampledFrom(logNs).Draw(rt, "log_n")
 		names := []string{"add", "mul", "neg", "sub", "mul", "add"}
 		if custom {
 			names = append(names, "pow2", "pow2Times", "pow4", "pow4Times", "ext3", "pow2Times", "pow4Times")
